@@ -181,6 +181,13 @@ let run_op (op : string) (r : rd) : unit =
                     put_res (fun (s, c) -> put_sdict s; sp (); put_int c) (Reader.read_plain fs root inc com n)
   | "json_parse" -> let d = get_str r in let n = get_int r in let t = get_kvs r in
                     let p = Reader.json_parse d n t in put_sdict p.TokParser.pr_sd; sp (); put_int p.TokParser.pr_count
+  | "variables_of" -> put_tree (Value.Dict (Expr.variables_of (get_sdict r)))
+  | "resolve_reference" -> let v = get_kvs r in let rf = get_str r in
+                           (match Expr.resolve_reference v rf with
+                            | Expr.RNone -> put "none" | Expr.RVal t -> put "some "; put_tree t
+                            | Expr.ROutside -> put "outside" | Expr.RFuel -> put "fuel")
+  | "subst_refs" -> let v = get_kvs r in let e = get_str r in put_str (Expr.subst_refs v e)
+  | "py_str_tree" -> put_str (Expr.py_str_tree (get_tree r))
   | _ -> raise (Bad ("op:" ^ op))
 
 let () =
